@@ -26,7 +26,7 @@ from harness import common
 
 GEN_MODULES = ['params']
 MODEL_TARGETS = ['model/M_Params.vo']
-PROOF_TARGETS = ['proofs/P_Params.vo', 'proofs/P_ParamsMap.vo']
+PROOF_TARGETS = ['proofs/P_Params.vo', 'proofs/P_ParamsViews.vo', 'proofs/P_ParamsWorld.vo', 'proofs/P_ParamsMap.vo', 'proofs/P_ParamsRec.vo']
 LEVEL = 'proof'
 RULE = ('operation sequences over {ParameterSet(), add_param front/back, map_param to model subsets with None / str / '
         'sequence aliases (incl. duplicate aliases, duplicate global names, wrong-length alias sequences, foreign and '
@@ -124,10 +124,11 @@ def c_op(op):
         al = op[3]
         als = 'ANone' if al is None else (f'(AStr {c_z(al[1])})' if al[0] == 's' else f'(ASeq {c_list(al[1])})')
         return f'(OMap {c_decl(op[1])} {models} {als})'
+    # the request is a Python dict: a repeated key keeps its first position and its last value
     if k == 'fix':
-        return f'(OFix {c_ref(op[1])} ' + c_list(op[2], lambda kv: f'({c_z(kv[0])}, {c_optz(kv[1])})') + ')'
+        return f'(OFix {c_ref(op[1])} ' + c_list(list(dict(op[2]).items()), lambda kv: f'({c_z(kv[0])}, {c_optz(kv[1])})') + ')'
     if k == 'float':
-        return f'(OFloat {c_ref(op[1])} ' + c_list(op[2], lambda kv: f'({c_z(kv[0])}, {c_fentry(kv[1])})') + ')'
+        return f'(OFloat {c_ref(op[1])} ' + c_list(list(dict(op[2]).items()), lambda kv: f'({c_z(kv[0])}, {c_fentry(kv[1])})') + ')'
     if k == 'union':
         return f'(OUnion {c_list(op[1], c_ref)})'
     if k == 'copy':
@@ -265,7 +266,7 @@ def _res(f):
 
 
 def items(d):
-    return [(unnm(k), fz(v)) for k, v in d.items()]
+    return sorted((unnm(k), fz(v)) for k, v in d.items())
 
 
 def obs_set(w, s):
@@ -275,8 +276,8 @@ def obs_set(w, s):
                opt(None if p.valmax is None else fz(p.valmax)), fz(p.value)) for p in s.params]
     g2 = (2, [bool(b) for b in s.fixed_params_mask], [unnm(n) for n in s.fixed_params_name_list],
           [unnm(n) for n in s.floating_params_name_list],
-          [(unnm(k), int(v)) for k, v in s._fixed_param_name_to_idx.items()],
-          [(unnm(k), int(v)) for k, v in s._floating_param_name_to_idx.items()],
+          sorted((unnm(k), int(v)) for k, v in s._fixed_param_name_to_idx.items()),
+          sorted((unnm(k), int(v)) for k, v in s._floating_param_name_to_idx.items()),
           [fz(v) for v in s.fixed_param_values])
     g3 = (3, [unnm(n) for n in s.params_name_list], [int(i) for i in s.fixed_params_idxs],
           [int(i) for i in s.floating_params_idxs],
@@ -389,3 +390,747 @@ def coq_eval_raw(name, exprs, timeout=900, per_file=150):
     if len(out) != len(exprs):
         raise RuntimeError(f'coq_eval_raw: {len(out)} values for {len(exprs)} expressions')
     return out
+
+
+# ------------------------------------------------------------------ the independent reference (predicate)
+class Entry:
+    """one row of the reference parameter table"""
+    __slots__ = ('name', 'fixed', 'value', 'initial', 'lo', 'hi')
+
+    def __init__(self, name, fixed, value, initial, lo, hi):
+        self.name, self.fixed, self.value, self.initial, self.lo, self.hi = name, fixed, value, initial, lo, hi
+
+    def key(self):
+        # bounds / initial of a fixed parameter are no view the property names
+        if self.fixed:
+            return (self.name, True, self.value)
+        return (self.name, False, self.value, self.initial, self.lo, self.hi)
+
+    def clone(self):
+        return Entry(self.name, self.fixed, self.value, self.initial, self.lo, self.hi)
+
+
+def entry_of_decl(d):
+    """(verdict, Entry) for Parameter(name, initial, valmin, valmax, isfixed) as documented"""
+    name, init, lo, hi, fx = d
+    if fx is None:
+        fx = not (lo is not None and hi is not None)
+    if fx:
+        return 'legal', Entry(name, True, init, init, lo, hi)
+    if lo is None or hi is None:
+        return 'undocumented', None
+    if init < lo or init > hi:
+        return 'reject', None
+    return 'legal', Entry(name, False, init, init, lo, hi)
+
+
+class Ref:
+    """the parameter table of every set and the alias columns of the mapper, driven by the documented
+    meaning of the operations.  apply() returns (verdict, new tables) without touching self; verdict:
+    'legal' (must succeed, tables as returned), 'reject' (must raise, nothing changes), 'undocumented'
+    (either; adopt what the implementation did if it did not raise)."""
+
+    def __init__(self, src):
+        self.src = list(src)
+        self.g = []            # entries of the global parameter set
+        self.alias = []        # per global parameter: list over models of alias | None
+        self.sets = []
+
+    def table(self, r):
+        return self.g if r == 'G' else self.sets[r]
+
+    def apply(self, op):
+        k = op[0]
+        nmod = len(self.src)
+        if k == 'new':
+            return 'legal', ('append', [])
+        if k == 'add':
+            if not (0 <= op[1] < len(self.sets)):
+                return 'undocumented', None
+            t = self.sets[op[1]]
+            v, e = entry_of_decl(op[3])
+            if any(x.name == op[3][0] for x in t):
+                return 'reject', None
+            if v != 'legal':
+                return v, None
+            nt = [e] + [x.clone() for x in t] if op[2] else [x.clone() for x in t] + [e]
+            return 'legal', ('set', op[1], nt)
+        if k == 'map':
+            v, e = entry_of_decl(op[1])
+            if v == 'reject' or any(x.name == op[1][0] for x in self.g):
+                return 'reject', None
+            models, al = op[2], op[3]
+            if models is None:
+                mids = list(range(nmod))
+            else:
+                if len(models) == 0:
+                    return 'reject', None
+                if any(not (0 <= m < nmod) for m in models):
+                    return 'undocumented', None
+                mids = sorted(set(models))
+            if al is None:
+                names = [op[1][0]] * nmod
+            elif al[0] == 's':
+                names = [al[1]] * nmod
+            else:
+                names = list(al[1])
+                if len(names) != nmod:
+                    return 'undocumented', None
+            for m in mids:
+                if any(col[m] == names[m] for col in self.alias):
+                    return 'reject', None
+            if v != 'legal':
+                return v, None
+            col = [names[m] if m in mids else None for m in range(nmod)]
+            return 'legal', ('map', e, col)
+        if k == 'fix':
+            t = self.table(op[1]) if (op[1] == 'G' or 0 <= op[1] < len(self.sets)) else None
+            if t is None:
+                return 'undocumented', None
+            req = dict(op[2])
+            if any(x.name in req and x.fixed for x in t):
+                return 'reject', None
+            nt = []
+            for x in t:
+                x = x.clone()
+                if x.name in req:
+                    v = req[x.name]
+                    x.fixed = True
+                    if v is None:
+                        x.initial = x.value
+                    else:
+                        x.initial = x.value = v
+                        if x.lo is not None and x.hi is not None and (v < x.lo or v > x.hi):
+                            x.lo = x.hi = None
+                nt.append(x)
+            return 'legal', ('set', op[1], nt)
+        if k == 'float':
+            t = self.table(op[1]) if (op[1] == 'G' or 0 <= op[1] < len(self.sets)) else None
+            if t is None:
+                return 'undocumented', None
+            req = dict(op[2])
+            nt = []
+            for x in t:
+                x = x.clone()
+                if x.name in req:
+                    if not x.fixed:
+                        return 'reject', None
+                    e = req[x.name]
+                    i, lo, hi = (None, None, None) if e is None else ((e[1], None, None) if e[0] == 'i' else e[1:])
+                    i = x.value if i is None else i
+                    lo = x.lo if lo is None else lo
+                    hi = x.hi if hi is None else hi
+                    if lo is None or hi is None or i < lo or i > hi:
+                        return 'reject', None
+                    x.fixed, x.initial, x.value, x.lo, x.hi = False, i, i, lo, hi
+                nt.append(x)
+            return 'legal', ('set', op[1], nt)
+        if k == 'union':
+            if len(op[1]) == 0:
+                return 'reject', None
+            if any(not (r == 'G' or 0 <= r < len(self.sets)) for r in op[1]):
+                return 'undocumented', None
+            nt = []
+            for r in op[1]:
+                for x in self.table(r):
+                    if not any(y.name == x.name for y in nt):
+                        nt.append(x.clone())
+            return 'legal', ('append', nt)
+        if k == 'copy':
+            if not (op[1] == 'G' or 0 <= op[1] < len(self.sets)):
+                return 'undocumented', None
+            return 'legal', ('append', [x.clone() for x in self.table(op[1])])
+        if k == 'setv':
+            if not (op[1] == 'G' or 0 <= op[1] < len(self.sets)):
+                return 'undocumented', None
+            t = self.table(op[1])
+            if not (0 <= op[2] < len(t)):
+                return 'undocumented', None
+            x = t[op[2]]
+            v = op[3]
+            if x.fixed:
+                if v != x.initial:
+                    return 'reject', None
+                return 'legal', ('set', op[1], [y.clone() for y in t])
+            if v < x.lo or v > x.hi:
+                return 'reject', None
+            nt = [y.clone() for y in t]
+            nt[op[2]].value = v
+            return 'legal', ('set', op[1], nt)
+        raise AssertionError(op)
+
+    def commit(self, upd):
+        if upd[0] == 'append':
+            self.sets.append(upd[1])
+        elif upd[0] == 'set':
+            if upd[1] == 'G':
+                self.g = upd[2]
+            else:
+                self.sets[upd[1]] = upd[2]
+        elif upd[0] == 'map':
+            self.g = self.g + [upd[1]]
+            self.alias.append(upd[2])
+
+    def keys(self):
+        return ([x.key() for x in self.g], [list(c) for c in self.alias], [[x.key() for x in t] for t in self.sets])
+
+    def adopt(self, w):
+        """take over the implementation's state (after an operation whose outcome is not documented)"""
+        self.g = table_of(w.pmm.global_paramset)
+        self.sets = [table_of(s) for s in w.sets]
+        m = w.pmm._model_param_names
+        self.alias = [[(None if m[i][j] is None else unnm(m[i][j])) for i in range(m.shape[0])]
+                      for j in range(m.shape[1])]
+
+
+def table_of(s):
+    """the parameter table as the Parameter objects of a real ParameterSet state it"""
+    out = []
+    for p in s.params:
+        out.append(Entry(unnm(p.name), bool(p.isfixed), fz(p.value), fz(p.initial),
+                         None if p.valmin is None else fz(p.valmin), None if p.valmax is None else fz(p.valmax)))
+    return out
+
+
+def impl_keys(w):
+    m = w.pmm._model_param_names
+    alias = [[(None if m[i][j] is None else unnm(m[i][j])) for i in range(m.shape[0])] for j in range(m.shape[1])]
+    return ([x.key() for x in table_of(w.pmm.global_paramset)], alias, [[x.key() for x in table_of(s)] for s in w.sets])
+
+
+def _eqf(a, b):
+    a, b = float(a), float(b)
+    return (math.isnan(a) and math.isnan(b)) or a == b
+
+
+def check_set_views(s, where, bad):
+    """every view of a real ParameterSet against the brute-force reading of its own Parameter objects"""
+    T = table_of(s)
+    fx = [e for e in T if e.fixed]
+    fl = [e for e in T if not e.fixed]
+    names = [e.name for e in T]
+
+    def expect(what, got, want):
+        if got != want:
+            bad.append((where, what, repr(got)[:200], repr(want)[:200]))
+
+    expect('duplicate-names', len(set(names)), len(names))
+    for e in T:
+        if e.fixed:
+            expect('fixed-value-differs-from-initial', e.value, e.initial)
+        else:
+            expect('floating-value-outside-bounds', e.lo is not None and e.hi is not None and e.lo <= e.value <= e.hi
+                   and e.lo <= e.initial <= e.hi, True)
+    expect('n_params', (s.n_params, len(s)), (len(T), len(T)))
+    expect('fixed_params_mask', [bool(b) for b in s.fixed_params_mask], [e.fixed for e in T])
+    expect('floating_params_mask', [bool(b) for b in s.floating_params_mask], [not e.fixed for e in T])
+    expect('fixed_params_name_list', [unnm(n) for n in s.fixed_params_name_list], [e.name for e in fx])
+    expect('floating_params_name_list', [unnm(n) for n in s.floating_params_name_list], [e.name for e in fl])
+    expect('params_name_list', sorted(unnm(n) for n in s.params_name_list), sorted(names))
+    expect('n_fixed_params', s.n_fixed_params, len(fx))
+    expect('n_floating_params', s.n_floating_params, len(fl))
+    expect('fixed_params_idxs', [int(i) for i in s.fixed_params_idxs], [i for i, e in enumerate(T) if e.fixed])
+    expect('floating_params_idxs', [int(i) for i in s.floating_params_idxs], [i for i, e in enumerate(T) if not e.fixed])
+    expect('fixed_param_values', [fz(v) for v in s.fixed_param_values], [e.value for e in fx])
+    try:
+        expect('fixed_params', [id(p) for p in s.fixed_params], [id(p) for p in s.params if p.isfixed])
+        expect('floating_params', [id(p) for p in s.floating_params], [id(p) for p in s.params if not p.isfixed])
+        expect('floating_param_initials', [fz(v) for v in s.floating_param_initials], [e.initial for e in fl])
+        expect('floating_param_bounds', [(fz(a), fz(b)) for a, b in s.floating_param_bounds], [(e.lo, e.hi) for e in fl])
+    except Exception as ex:     # noqa: BLE001
+        bad.append((where, 'floating-views-raise', type(ex).__name__, ''))
+    for k in PROBE:
+        want_fx = [i for i, e in enumerate(fx) if e.name == k]
+        want_fl = [i for i, e in enumerate(fl) if e.name == k]
+        expect(f'get_fixed_pidx', _res(lambda: int(s.get_fixed_pidx(nm(k)))),
+               ('Ok', want_fx[0]) if want_fx else ('Err', 'KeyError'))
+        expect(f'get_floating_pidx', _res(lambda: int(s.get_floating_pidx(nm(k)))),
+               ('Ok', want_fl[0]) if want_fl else ('Err', 'KeyError'))
+        expect('has_param', (s.has_fixed_param(nm(k)), s.has_floating_param(nm(k))), (bool(want_fx), bool(want_fl)))
+    vec = [100.0 + 7 * i for i in range(len(fl))]
+    want = {e.name: vec[[x.name for x in fl].index(e.name)] if not e.fixed else e.value for e in T}
+    expect('get_params_dict', {unnm(k): float(v) for k, v in s.get_params_dict(np.array(vec)).items()},
+           {k: float(v) for k, v in want.items()})
+    expect('get_floating_params_dict', {unnm(k): float(v) for k, v in s.get_floating_params_dict(np.array(vec)).items()},
+           {e.name: float(vec[i]) for i, e in enumerate(fl)})
+    return T, fx, fl, vec
+
+
+def check_map_views(w, bad):
+    """every view of the real mapper against the brute-force reading of (Parameter objects, alias matrix)"""
+    pmm = w.pmm
+    where = 'ParameterModelMapper'
+    g = pmm.global_paramset
+    T = table_of(g)
+    fl = [e for e in T if not e.fixed]
+    nmod = len(w.models)
+    M = pmm._model_param_names
+
+    def expect(what, got, want):
+        if got != want:
+            bad.append((where, what, repr(got)[:200], repr(want)[:200]))
+
+    expect('matrix-shape', tuple(M.shape), (nmod, len(T)))
+    if tuple(M.shape) != (nmod, len(T)):
+        return
+    A = [[(None if M[i][j] is None else unnm(M[i][j])) for j in range(len(T))] for i in range(nmod)]
+    for i in range(nmod):
+        al = [a for a in A[i] if a is not None]
+        expect('duplicate-local-name', len(set(al)), len(al))
+    expect('n_global', (pmm.n_models, pmm.n_global_params, pmm.n_global_fixed_params, pmm.n_global_floating_params,
+                        int(pmm.n_sources)),
+           (nmod, len(T), len(T) - len(fl), len(fl), sum(w.src)))
+    vec = [100.0 + 7 * i for i in range(len(fl))]
+    rank = {e.name: i for i, e in enumerate(fl)}
+
+    def val(j):
+        e = T[j]
+        return float(e.value) if e.fixed else float(vec[rank[e.name]])
+
+    def gpidx(j):
+        e = T[j]
+        return -(j + 1) if e.fixed else rank[e.name] + 1
+
+    for i in range(nmod):
+        want = {A[i][j]: val(j) for j in range(len(T)) if A[i][j] is not None}
+        for arg in (i, w.models[i], w.models[i].name):
+            got = _res(lambda: {unnm(k): float(v) for k, v in pmm.create_model_params_dict(np.array(vec), arg).items()})
+            expect('create_model_params_dict', got, ('Ok', want))
+        for j in range(len(T)):
+            a = pmm.get_model_param_name(i, j)
+            expect('get_model_param_name', None if a is None else unnm(a), A[i][j])
+    smidx_all = [i for i in range(nmod) if w.src[i]]
+    expect('get_src_model_idxs', [int(i) for i in pmm.get_src_model_idxs()], smidx_all)
+    uniq = sorted({A[i][j] for i in smidx_all for j in range(len(T)) if A[i][j] is not None})
+    expect('unique_source_param_names', [unnm(n) for n in pmm.unique_source_param_names], uniq)
+    expect('unique_model_param_names', [unnm(n) for n in pmm.unique_model_param_names],
+           sorted({a for row in A for a in row if a is not None}))
+    sels = [('all', None, smidx_all)]
+    if smidx_all:
+        sub = smidx_all[1:] + smidx_all[:1] if len(smidx_all) > 1 else smidx_all
+        sub = sub[: max(1, len(sub) - 1)]
+        sels.append(('objs', [w.models[i] for i in sub], [i for i in smidx_all if i in sub]))
+        sels.append(('one', w.models[smidx_all[-1]], [smidx_all[-1]]))
+        sels.append(('int32', np.array(smidx_all[::-1], dtype=np.int32), smidx_all[::-1]))
+    for tag, arg, smidxs in sels:
+        if tag != 'int32':
+            expect('get_src_model_idxs(sources)', _res(lambda: [int(i) for i in pmm.get_src_model_idxs(sources=arg)]),
+                   ('Ok', smidxs))
+        try:
+            rec = pmm.create_src_params_recarray(np.array(vec), sources=arg)
+        except Exception as ex:     # noqa: BLE001
+            bad.append((where, 'create_src_params_recarray-raises', type(ex).__name__, tag))
+            continue
+        fields = [n for n in rec.dtype.names if n != ':model_idx' and not n.endswith(':gpidx')]
+        expect('recarray-fields', [unnm(n) for n in fields], uniq)
+        expect('recarray-model_idx', [int(x) for x in rec[':model_idx']], smidxs)
+        if [unnm(n) for n in fields] != uniq or len(rec) != len(smidxs):
+            continue
+        for r, i in enumerate(smidxs):
+            for u in uniq:
+                js = [j for j in range(len(T)) if A[i][j] == u]
+                v = float(rec[nm(u)][r])
+                gi = int(rec[nm(u) + ':gpidx'][r])
+                if not js:
+                    if not math.isnan(v):
+                        bad.append((where, 'recarray-unmapped-not-nan', repr((i, u, v)), 'nan'))
+                else:
+                    if not (v == val(js[0]) and gi == gpidx(js[0])):
+                        bad.append((where, 'recarray-wrong-cell', repr((i, u, v, gi)), repr((val(js[0]), gpidx(js[0])))))
+    # unmapped floating values -> NaN when no vector is given
+    try:
+        rec = pmm.create_src_params_recarray()
+        for r, i in enumerate(smidx_all):
+            for u in uniq:
+                js = [j for j in range(len(T)) if A[i][j] == u]
+                v = float(rec[nm(u)][r])
+                want = float('nan') if (not js or not T[js[0]].fixed) else float(T[js[0]].value)
+                if not _eqf(v, want):
+                    bad.append((where, 'recarray-default-values', repr((i, u, v)), repr(want)))
+    except Exception as ex:     # noqa: BLE001
+        bad.append((where, 'create_src_params_recarray-raises', type(ex).__name__, 'default'))
+    if len(fl) > 0 or True:
+        got = _res(lambda: pmm.create_src_params_recarray(np.array([0.0] + vec)))
+        if got[0] != 'Err':
+            bad.append((where, 'recarray-accepts-wrong-length-vector', '', ''))
+    expect('create_global_params_dict', {unnm(k): float(v) for k, v in pmm.create_global_params_dict(np.array(vec)).items()},
+           {e.name: val(j) for j, e in enumerate(T)})
+    expect('create_global_floating_params_dict',
+           {unnm(k): float(v) for k, v in pmm.create_global_floating_params_dict(np.array(vec)).items()},
+           {e.name: float(vec[i]) for i, e in enumerate(fl)})
+    for k in PROBE:
+        expect('get_gflp_idx', _res(lambda: int(pmm.get_gflp_idx(nm(k)))),
+               ('Ok', rank[k]) if k in rank else ('Err', 'KeyError'))
+    want = [any(A[i][j] == k and not T[j].fixed for i in range(nmod) for j in range(len(T))) for k in PROBE]
+    expect('get_local_param_is_global_floating_param_mask',
+           [bool(b) for b in pmm.get_local_param_is_global_floating_param_mask([nm(k) for k in PROBE])], want)
+
+
+def check_sharing(w, bad):
+    seen = {}
+    for si, s in enumerate(w.all_sets()):
+        for p in s.params:
+            if id(p) in seen and seen[id(p)] != si:
+                bad.append(('ParameterSet', 'parameter-object-shared-between-sets', repr((seen[id(p)], si, p.name)), ''))
+            seen[id(p)] = si
+
+
+def predicates(ctx, case, w, ref, step, op, err, before):
+    """the property evaluated on the implementation after one step"""
+    bad = []
+    check_map_views(w, bad)
+    check_set_views(w.pmm.global_paramset, 'ParameterSet', bad)
+    for s in w.sets:
+        check_set_views(s, 'ParameterSet', bad)
+    check_sharing(w, bad)
+    now = impl_keys(w)
+    verdict, upd = ref.apply(op)
+    ctx.count('ref:' + verdict)
+    if err is not None and now != before:
+        bad.append((op[0], 'state-changed-by-rejected-operation', repr(now)[:300], repr(before)[:300]))
+    if verdict == 'legal':
+        if err is not None:
+            bad.append((op[0], 'legal-operation-raises-' + err, repr(op)[:200], ''))
+            ref.adopt(w)
+        else:
+            ref.commit(upd)
+            if ref.keys() != now:
+                bad.append((op[0], 'state-differs-from-reference-table', repr(now)[:300], repr(ref.keys())[:300]))
+                ref.adopt(w)
+    elif verdict == 'reject':
+        if err is None:
+            bad.append((op[0], 'invalid-request-accepted', repr(op)[:200], ''))
+            ref.adopt(w)
+    else:
+        if err is None:
+            ref.adopt(w)
+    for (site, kind, got, want) in bad:
+        ctx.violation(site if site in ('ParameterSet', 'ParameterModelMapper') else 'op:' + site, kind,
+                      f'step {step} {op!r}: got {got} want {want}',
+                      case={'src': case['src'], 'ops': [list(o) for o in case['ops'][:step + 1]]},
+                      impl=got, predicate=kind)
+    return now
+
+
+# ------------------------------------------------------------------ running one case
+def run_impl(ctx, case, mode):
+    """mode 'trace': observation after every step; 'last': after the last step only.  The predicates are
+    evaluated after every step of a 'trace' case and after the last step of a 'last' case (all of whose
+    prefixes are cases of their own)."""
+    w = PyWorld(case['src'])
+    ref = Ref(case['src'])
+    out = []
+    before = impl_keys(w)
+    n = len(case['ops'])
+    for i, op in enumerate(case['ops']):
+        err = w.apply(op)
+        if err is not None and err not in ERRS:
+            ctx.violation('op:' + op[0], 'unexpected-exception-' + err, f'{op!r} raised {err}',
+                          case={'src': case['src'], 'ops': [list(o) for o in case['ops'][:i + 1]]}, impl=err)
+        ctx.count('op:' + op[0] + (':err' if err else ':ok'))
+        if mode == 'trace' or i == n - 1:
+            before = predicates(ctx, case, w, ref, i, op, err, before)
+            out.append((('Some', err) if err else 'None', observe(w)))
+        else:
+            # keep the reference in step without re-checking the (already covered) prefix
+            verdict, upd = ref.apply(op)
+            if verdict == 'legal' and err is None:
+                ref.commit(upd)
+            else:
+                ref.adopt(w)
+            before = impl_keys(w)
+    return out
+
+
+def model_expr(case, mode):
+    src = c_list(case['src'], c_bool)
+    ops = c_list(case['ops'], c_op)
+    f = 'obs_trace' if mode == 'trace' else 'obs_last'
+    return f'{f} {src} {ops} {c_list(PROBE)}'
+
+
+def impl_tokens(res, mode):
+    if mode == 'trace':
+        return flat(list(res), [])
+    return flat(res[-1], [])
+
+
+# ------------------------------------------------------------------ generators
+GNAMES = [0, 1, 2, 3]
+LNAMES = [4, 5, 6, 7]
+
+
+def gen_decl(rng, name, ctx=None):
+    r = rng.random()
+    lo = rng.choice([-4, 0, 2])
+    hi = lo + rng.choice([0, 1, 3, 6])
+    if r < 0.40:
+        kind, d = 'floating', (name, rng.randint(lo, hi), lo, hi, None)
+    elif r < 0.50:
+        kind, d = 'floating-on-bound', (name, rng.choice([lo, hi]), lo, hi, rng.choice([None, False]))
+    elif r < 0.70:
+        kind, d = 'fixed-nobounds', (name, rng.randint(-5, 9), None, None, None)
+    elif r < 0.78:
+        kind, d = 'fixed-with-bounds', (name, rng.randint(lo - 2, hi + 2), lo, hi, True)
+    elif r < 0.84:
+        kind, d = 'fixed-one-bound', (name, rng.randint(-5, 9), rng.choice([None, lo]), None, rng.choice([None, True]))
+    elif r < 0.93:
+        kind, d = 'floating-outside', (name, rng.choice([lo - 1, hi + 1, hi + 4]), lo, hi, rng.choice([None, False]))
+    else:
+        kind, d = 'floating-nobounds', (name, 1, rng.choice([None, lo]), None, False)
+    if ctx is not None:
+        ctx.count('decl:' + kind)
+    return d
+
+
+def gen_value_for(rng, e, ctx, tag):
+    """a value relative to an Entry's bounds: inside / on / just outside / far"""
+    if e.lo is None or e.hi is None:
+        ctx.count(tag + ':nobounds')
+        return rng.randint(-5, 9)
+    r = rng.random()
+    if r < 0.45:
+        ctx.count(tag + ':inside')
+        return rng.randint(e.lo, e.hi)
+    if r < 0.65:
+        ctx.count(tag + ':on-bound')
+        return rng.choice([e.lo, e.hi])
+    if r < 0.9:
+        ctx.count(tag + ':just-outside')
+        return rng.choice([e.lo - 1, e.hi + 1])
+    ctx.count(tag + ':far-outside')
+    return rng.choice([e.lo - 7, e.hi + 9])
+
+
+def gen_ops(ctx, rng, src, length):
+    """a mostly-valid operation sequence; the state needed to pick meaningful arguments is tracked with the
+    reference table (which is only used to choose arguments here)"""
+    ref = Ref(src)
+    w = PyWorld(src)
+    nmod = len(src)
+    ops = []
+    for _ in range(length):
+        refs = ['G'] + list(range(len(ref.sets)))
+        full = [r for r in refs if ref.table(r)]
+        pick = (lambda: rng.choice(full) if full and rng.random() < 0.9 else rng.choice(refs))   # noqa: E731
+        kinds = ['map'] * 5 + ['fix'] * 4 + ['float'] * 4 + ['setv'] * 3 + ['copy', 'union', 'union', 'new', 'add', 'add', 'add']
+        k = rng.choice(kinds)
+        if k == 'add' and not ref.sets:
+            k = 'new'
+        if k == 'new':
+            op = ('new',)
+        elif k == 'add':
+            n = rng.randrange(len(ref.sets)) if rng.random() < 0.95 else len(ref.sets)
+            op = ('add', n, rng.random() < 0.5, gen_decl(rng, rng.choice(GNAMES), ctx))
+        elif k == 'map':
+            d = gen_decl(rng, rng.choice(GNAMES), ctx)
+            r = rng.random()
+            if r < 0.3:
+                models = None
+            elif r < 0.9:
+                models = sorted(rng.sample(range(nmod), rng.randint(1, nmod)))
+                if rng.random() < 0.15:
+                    rng.shuffle(models)
+            elif r < 0.95:
+                models = []
+            else:
+                models = [rng.randrange(nmod), nmod + 1]
+            r = rng.random()
+            if r < 0.3:
+                al = None
+            elif r < 0.55:
+                al = ('s', rng.choice(LNAMES + GNAMES))
+            elif r < 0.92:
+                al = ('q', [rng.choice(LNAMES + GNAMES) for _ in range(nmod)])
+            else:
+                al = ('q', [rng.choice(LNAMES) for _ in range(rng.choice([0, 1, max(1, nmod - 1), nmod + 1]))])
+            ctx.count('map:models=' + ('None' if models is None else 'subset' if models and max(models) < nmod else
+                                       'empty' if not models else 'foreign'))
+            ctx.count('map:alias=' + ('None' if al is None else 'str' if al[0] == 's' else
+                                      'seq' if len(al[1]) == nmod else 'seq-wrong-length'))
+            op = ('map', d, models, al)
+        elif k in ('fix', 'float'):
+            r = pick()
+            t = ref.table(r)
+            want_fixed = (k == 'float')
+            good = [e for e in t if e.fixed == want_fixed]
+            other = [e for e in t if e.fixed != want_fixed]
+            req = []
+            pool = list(good)
+            rng.shuffle(pool)
+            for e in pool[: rng.choice([1, 1, 1, 2, 3])]:
+                if k == 'fix':
+                    req.append((e.name, None if rng.random() < 0.35 else gen_value_for(rng, e, ctx, 'fix-value')))
+                else:
+                    rr = rng.random()
+                    if rr < 0.3:
+                        req.append((e.name, None))
+                        ctx.count('float-entry:None' + (':nobounds' if e.lo is None or e.hi is None else ''))
+                    elif rr < 0.55:
+                        req.append((e.name, ('i', gen_value_for(rng, e, ctx, 'float-initial'))))
+                    else:
+                        lo = rng.choice([-3, 0, 1])
+                        hi = lo + rng.choice([0, 2, 5])
+                        i = rng.choice([None, lo, hi, rng.randint(lo, hi), lo - 1, hi + 1])
+                        tri = ('t', i, rng.choice([lo, lo, None]), rng.choice([hi, hi, None]))
+                        ctx.count('float-entry:triple')
+                        req.append((e.name, tri))
+            if other and rng.random() < 0.15:
+                e = rng.choice(other)
+                req.insert(rng.randint(0, len(req)), (e.name, None))
+                ctx.count(k + ':already-' + ('fixed' if k == 'fix' else 'floating'))
+            if rng.random() < 0.1:
+                req.append((rng.choice(GNAMES + LNAMES), None))
+            op = (k, r, req)
+        elif k == 'union':
+            m = rng.choice([1, 2, 2, 3]) if rng.random() < 0.95 else 0
+            op = ('union', [rng.choice(refs) for _ in range(m)])
+        elif k == 'copy':
+            op = ('copy', rng.choice(refs))
+        else:
+            r = pick()
+            t = ref.table(r)
+            if t and rng.random() < 0.93:
+                j = rng.randrange(len(t))
+                e = t[j]
+                if e.fixed:
+                    v = e.initial if rng.random() < 0.5 else e.initial + rng.choice([-1, 1])
+                    ctx.count('setv:fixed-' + ('same' if v == e.initial else 'changed'))
+                else:
+                    v = gen_value_for(rng, e, ctx, 'setv')
+                if rng.random() < 0.1:
+                    j -= len(t)
+            else:
+                j, v = len(t), 0
+                ctx.count('setv:bad-index')
+            op = ('setv', r, j, v)
+        ops.append(op)
+        err = w.apply(op)
+        ref.adopt(w)
+        if len(ref.sets) > 5:
+            break
+    return ops
+
+
+def layouts():
+    out = []
+    for n in range(1, 5):
+        out += [list(t) for t in itertools.product([True, False], repeat=n)]
+    return out
+
+
+def alphabet(src):
+    """a fixed alphabet of concrete operations for the bounded-exhaustive enumeration"""
+    nmod = len(src)
+    allm = list(range(nmod))
+    A = [
+        ('map', (0, 1, 0, 3, None), None, None),
+        ('map', (1, 5, None, None, None), [0], ('s', 4)),
+        ('map', (2, 2, 0, 3, None), allm[-1:], ('q', [4 + (i % 2) for i in range(nmod)])),
+        ('map', (3, 7, 6, 8, True), allm[:2], ('s', 5)),
+        ('fix', 'G', [(0, 4)]),
+        ('fix', 'G', [(2, None)]),
+        ('float', 'G', [(1, ('t', 5, 4, 6))]),
+        ('float', 'G', [(0, None), (3, ('i', 9))]),
+        ('union', ['G', 0]),
+        ('copy', 'G'),
+        ('fix', 0, [(2, 1)]),
+        ('new',),
+        ('add', 0, True, (2, 0, 0, 3, None)),
+        ('add', 0, False, (1, 3, None, None, None)),
+    ]
+    return A
+
+
+def corpus_cases():
+    """the failing inputs of the defects repaired in /repo (known_findings `fixed` entries of C04)"""
+    fl = lambda n, i=1: (n, i, 0, 3, None)      # noqa: E731
+    fx = lambda n, v=5: (n, v, None, None, None)  # noqa: E731
+    return [
+        # 26ba7e8: request rejected in the middle of the rebuild loop left the caches cleared
+        {'src': [True], 'ops': [('map', fl(0), None, None), ('map', fx(1), None, None), ('map', fl(2), None, None),
+                                ('fix', 'G', [(0, 1), (1, 2)]), ('float', 'G', [(1, None), (2, None)]),
+                                ('float', 'G', [(1, ('t', 9, 0, 3))])]},
+        # a6f00b3: non-source model before the source models, selection by source objects
+        {'src': [False, True, False, True, True], 'ops': [('map', fl(0), [1, 3], ('s', 4)), ('map', fx(1), [0, 4], None),
+                                                          ('map', fl(2), [3, 4], ('q', [4, 5, 6, 7, 4]))]},
+        # 9f2340d: make_floating modified the parameter before rejecting
+        {'src': [True, False], 'ops': [('map', fx(0), None, None), ('map', (1, 2, 0, 3, True), None, ('s', 4)),
+                                       ('float', 'G', [(0, None)]), ('float', 'G', [(1, ('i', 7))]),
+                                       ('float', 'G', [(1, ('t', None, 5, 6))]), ('float', 'G', [(1, None), (0, ('t', 1, 0, 2))])]},
+        # b3880d5: map_param added the global parameter before the names column could be created
+        {'src': [True, True, False], 'ops': [('map', fl(0), None, ('q', [4, 5])), ('map', fl(0), [0], ('q', [4, 5])),
+                                             ('map', fl(0), None, ('q', [4, 5, 6, 7])), ('map', fl(1), None, ('q', [4, 5, 6])),
+                                             ('map', fl(0), None, ('q', [4]))]},
+        # afa632e: union shared the Parameter objects with its operands
+        {'src': [True], 'ops': [('new',), ('add', 0, False, fl(0)), ('add', 0, True, fx(1)), ('union', [0]),
+                                ('fix', 1, [(0, 7)]), ('float', 0, [(1, ('t', 1, 0, 2))]), ('union', [0, 1, 'G']),
+                                ('copy', 1), ('float', 1, [(0, ('t', 1, 0, 2))]), ('setv', 2, 0, 2)]},
+        # 38184bc (C02, same code): fixed parameter declared ahead of a floating one
+        {'src': [True, True], 'ops': [('map', fx(0), None, None), ('map', fl(1), [1], ('s', 4)), ('map', fl(2), [0], ('s', 4)),
+                                      ('fix', 'G', [(1, None)]), ('float', 'G', [(0, ('t', 1, 0, 2))])]},
+    ]
+
+
+# ------------------------------------------------------------------ run / replay
+def run_batch(ctx, batch, tag):
+    """batch: list of (case, mode).  Runs the implementation (with predicates) and the model, compares."""
+    impl = []
+    for case, mode in batch:
+        ctx.case({'src': case['src'], 'ops': case['ops'], 'mode': mode}, nontrivial=len(case['ops']) > 0)
+        impl.append(impl_tokens(run_impl(ctx, case, mode), mode))
+    if not ctx.model_ok:
+        ctx.notes.append('model did not build: implementation-only predicates were evaluated')
+        return
+    try:
+        vals = coq_eval_raw('c04' + tag, [model_expr(c, m) for c, m in batch])
+    except RuntimeError as ex:
+        ctx.broken.append({'kind': 'model-eval', 'error': str(ex)[:1500]})
+        return
+    for (case, mode), it, v in zip(batch, impl, vals):
+        ctx.corr_cases += 1
+        mt = coq_tokens(v)
+        if mt != it:
+            k = next((i for i, (a, b) in enumerate(zip(mt, it)) if a != b), min(len(mt), len(it)))
+            ctx.disagree('parameters.' + (case['ops'][-1][0] if case['ops'] else 'init'),
+                         {'src': case['src'], 'ops': [list(o) for o in case['ops']], 'mode': mode},
+                         ' '.join(it[max(0, k - 12):k + 12]), ' '.join(mt[max(0, k - 12):k + 12]),
+                         detail=f'first difference at token {k}')
+
+
+def run(ctx):
+    rng = ctx.rng
+    batch = [(c, 'trace') for c in corpus_cases()]
+    # bounded-exhaustive: every sequence over the alphabet up to length L, one case per distinct prefix
+    lays = [[False, True], [True, False, True], [True], [False, True, True, False]]
+    if ctx.thorough():
+        lays = lays + [[True, True], [False, False, True], [True, True, False, True]]
+    for li, src in enumerate(lays):
+        A = alphabet(src)
+        L = ctx.budget(3, 4) if li < 1 else ctx.budget(2, 3)
+        for n in range(1, L + 1):
+            for seq in itertools.product(A, repeat=n):
+                batch.append(({'src': src, 'ops': list(seq)}, 'last'))
+                ctx.count(f'exhaustive:len{n}')
+    # random histories, every model layout
+    n_rand = ctx.budget(250, 6000)
+    lay = layouts()
+    for i in range(n_rand):
+        src = lay[i % len(lay)] if i < 2 * len(lay) else rng.choice(lay)
+        length = rng.choice([3, 5, 6, 6, 8, 12, 18, 25])
+        ops = gen_ops(ctx, rng, src, length)
+        ctx.count(f'random:len{len(ops)}')
+        ctx.count('layout:' + ''.join('S' if b else 'm' for b in src))
+        batch.append(({'src': src, 'ops': ops}, 'trace'))
+    ctx.sample({'src': batch[-1][0]['src'], 'ops': [list(o) for o in batch[-1][0]['ops']][:8]})
+    ctx.sample({'src': batch[0][0]['src'], 'ops': [list(o) for o in batch[0][0]['ops']]})
+    run_batch(ctx, batch, 'm')
+
+
+def replay(ctx, rp):
+    c = rp.get('case') or {}
+    if not c.get('ops'):
+        ctx.notes.append('replay file has no concrete input (broken obligation): re-running the full check')
+        return run(ctx)
+    case = {'src': [bool(b) for b in c['src']], 'ops': [norm_op(tup(o)) for o in c['ops']]}
+    run_batch(ctx, [(case, 'trace')], 'r')
